@@ -1,6 +1,7 @@
 #pragma once
 #include "refs_cmp.hpp"
 #include "refs_conv.hpp"
+#include "refs_perm.hpp"
 #include "refs_red.hpp"
 #include "refs_fp.hpp"
 #include "refs_int.hpp"
@@ -14,5 +15,6 @@ namespace xv
         register_cmp_specs();
         register_conv_specs();
         register_red_specs();
+        register_perm_specs();
     }
 }
